@@ -100,7 +100,7 @@ CLAIMED = {
              "complete answer with enough slots, independence of how slots are split over update() calls; foreign topics ignored. "
              "Every run drives the REAL MqttClient + minimq in-process (in-memory TCP, broker stub, mock clock) through random "
              "request/fault histories, steps the Lean model on the observations recorded by the cfg hooks and compares state, "
-             "return value and publications per update(), and checks the broker's packet log against an independent simulator.",
+             "return value and publications per update(), and checks the broker's packet log against an independent simulator. source_handler_is_model: the poll closure of MqttClient as TRANSLATED from miniconf_mqtt/src/lib.rs on every run (minimq and the settings tree as an explicit environment, publications as an action list) equals the handleMsg of the model for the environment the model assumes.",
         note="minimq (QoS handshakes, retransmission, buffers) is the environment: observed, not modelled. 'Delivered while able to "
              "publish' is the hypothesis canPub. Trusted: broker stub, mock clock, observation derivation.",
         tech="Lean 4 proofs (unfolding equations, list induction) over a hand-written model + hook-driven refinement check against the real client + packet-log oracle"),
